@@ -75,7 +75,15 @@ TrSkip ==
   /\ l <= Len(Trace) /\ Trace[l].op # "world" /\ ~live /\ l' = l + 1
   /\ UNCHANGED <<vars, bad, live>>
 
-TraceNext == TrWorld \/ TrAddEdge \/ TrAddNode \/ TrCalculate \/ TrSkip
+\* an event that is no step of the specification at all (its action is not enabled in the current state, e.g. a
+\* calculate() logged for an empty diagram because an earlier event is missing): rejected, like any other mismatch
+TrNoStep ==
+  /\ l <= Len(Trace) /\ Trace[l].op # "world" /\ live /\ l' = l + 1
+  /\ ~ENABLED (TrAddEdge \/ TrAddNode \/ TrCalculate)
+  /\ Reject("no-step-of-the-specification")
+  /\ UNCHANGED vars
+
+TraceNext == TrWorld \/ TrAddEdge \/ TrAddNode \/ TrCalculate \/ TrSkip \/ TrNoStep
 TraceSpec == TraceInit /\ [][TraceNext]_tvars
 
 AtEnd == l = Len(Trace) + 1
